@@ -186,7 +186,7 @@ func TestC06(t *testing.T) {
 		"of each link type, 0, unknown} x {SCION, EPIC} x sibling links {detached, connected} x keys; all validated hop fields carry valid MACs; " +
 		"every packet is judged on fresh processors AND directly after each kind of predecessor packet on the same processor (rtr.Dirt: " +
 		"cross-over forwarded / rejected after the switch / EPIC / extension headers / to a sibling, peering hops, in-segment transit, from " +
-		"sibling, from host, delivery, one-hop path: all histories of length 1 over that alphabet); " +
+		"sibling, from host, delivery, one-hop path: all histories of length 1 over that alphabet, thorough: also of length 2); " +
 		"distinct key = scenario+dirs+ingress+egress+type+key; non-trivial = all"
 	var nHarness, histories atomic.Int64
 	harness := func(f string, a ...any) {
@@ -222,6 +222,7 @@ func TestC06(t *testing.T) {
 			cfg.ReuseLocal = j.reuse
 			rt := rtr.MustBuild(cfg)
 			hp := rt.NewHProc(j.key, ts)
+			hp.Depth = mc.Pick(1, 2)
 			dirt := hp.Dirt
 			if ji == 0 {
 				var kinds []string
@@ -281,7 +282,7 @@ func TestC06(t *testing.T) {
 						if sampled.Add(1)%997 == 1 {
 							r.Sample(map[string]any{"case": key, "packet": fmt.Sprintf("%x", raw), "disp": dispName(res.Fast.Disp)})
 						}
-						histories.Add(int64(1 + len(dirt)))
+						histories.Add(int64(hp.Histories()))
 						// judge the result on fresh processors and, if a predecessor changes the result, that result too
 						// (finding keys of the latter carry the suffix "/after-other-packet")
 						type judged struct {
